@@ -477,6 +477,12 @@ def _post_bind(mon, call):
         if any(tasks[j].circuit is tasks[i].circuit and any(maps[j].get(s) != maps[i].get(s) for s in used) for j in range(i)):
             mon.note("bind:one-circuit-object-bound-with-differing-maps")
             break
+    for i in range(len(tasks)):
+        used = {s for _nm, _q, ps in pre[i][0][1] for p in ps for s in sympy.sympify(p).free_symbols}
+        if any(tasks[j].circuit is not tasks[i].circuit and pre[j][0] == pre[i][0] and any(maps[j].get(s) != maps[i].get(s) for s in used)
+               for j in range(i)):
+            mon.note("bind:equal-but-distinct-circuits-bound-with-differing-maps")
+            break
     mon.ok(name)
 
 
